@@ -356,6 +356,29 @@ pub fn extra(_args: &[String]) {
         let mut variants: Vec<(String, Vec<u8>)> = vec![(fx.to_string(), src.clone())];
         let mut t = src.clone(); t.extend_from_slice(b"TRAILING-DATA-AFTER-THE-END-MARKER"); variants.push((format!("{fx}+trailing"), t));
         if let Ok(signed) = sign_bytes(ctx(&json!({"core": {"prefer_compress_manifests": true}})), &simple_manifest_json("c12", mime), mime, &src, "ed25519") { variants.push((format!("{fx}+boxhash-signed"), signed)); }
+        // structurally mutated variants: a structure of another application next to the manifest position, and (box formats)
+        // each top-level box rewritten with the 64-bit extended size form, which is legal but never written by the SDK
+        if let Some(d) = decorate(name, &src) {
+            if let Ok(signed) = sign_bytes(ctx(&json!({"core": {"prefer_compress_manifests": true}})), &simple_manifest_json("c12", mime), mime, &d, "ed25519") { variants.push((format!("{fx}+foreign+boxhash-signed"), signed)); }
+            variants.push((format!("{fx}+foreign"), d));
+        }
+        if name == "jxl" && src.len() > 12 && &src[4..8] == b"JXL " {
+            let mut boxes: Vec<(usize, usize)> = vec![];
+            let mut p = 0usize;
+            while p + 8 <= src.len() {
+                let s = u32::from_be_bytes([src[p], src[p + 1], src[p + 2], src[p + 3]]) as usize;
+                let s = if s == 0 { src.len() - p } else { s };
+                if s < 8 || s == 1 || p + s > src.len() { break; }
+                boxes.push((p, s)); p += s;
+            }
+            for (k, (bp, bs)) in boxes.iter().enumerate().skip(1) {
+                let mut o = src[..*bp].to_vec();
+                o.extend_from_slice(&1u32.to_be_bytes()); o.extend_from_slice(&src[bp + 4..bp + 8]); o.extend_from_slice(&((*bs + 8) as u64).to_be_bytes());
+                o.extend_from_slice(&src[bp + 8..bp + bs]); o.extend_from_slice(&src[bp + bs..]);
+                if let Ok(signed) = sign_bytes(ctx(&json!({"core": {"prefer_compress_manifests": true}})), &simple_manifest_json("c12", mime), mime, &o, "ed25519") { variants.push((format!("{fx}+largesize{k}+boxhash-signed"), signed)); }
+                variants.push((format!("{fx}+largesize{k}"), o));
+            }
+        }
         for (an, data) in variants {
             let mut c = Cursor::new(data.clone());
             match c2pa::verif_hooks::box_map(mime, &mut c) {
